@@ -4,6 +4,7 @@
 
 pub mod e1;
 pub mod e2;
+pub mod e3;
 pub mod e4;
 pub mod e5;
 pub mod envmodel;
